@@ -80,7 +80,7 @@ def gen_cases(rng, tier):
     r = rng.fork("impl2ref")
     types = list(V.SERIALISABLE)
     for _ in range(n):
-        descs = [V.gen_descspec(r, types=types) for _ in range(r.randint(1, 2))]
+        descs = [V.gen_descspec(r, types=types, nfields=r.choice([0, 1, 2, 3, 4, 5, 6])) for _ in range(r.randint(1, 2))]
         recs = [V.gen_record(r, descspec=r.choice(descs), types=types) for _ in range(r.randint(1, 5))]
         case = {"kind": "impl2ref", "records": recs}
         w = r.below(20)
@@ -152,7 +152,7 @@ def gen_cases(rng, tier):
         cases.append(case)
     r = rng.fork("ref2impl")
     for _ in range(n):
-        nf = r.randint(1, 5)
+        nf = r.randint(0, 5)          # 0: a type without declared fields (marker / heartbeat records)
         names = r.sample(V.FNAMES[:10], nf)
         fields = [[r.choice(SIMPLE), fn] for fn in names]
         ds = [r.choice(["test/ref", "a/b/c", "x"]), fields]
@@ -166,7 +166,7 @@ def gen_cases(rng, tier):
                          "extra": r.randint(1, 3), "version": r.choice([1, 1, 1, 2, 255])})
         case = {"kind": "ref2impl", "desc": ds, "records": recs, "seed": r.below(2 ** 32),
                 "minimal": r.chance(25), "rehdr": r.chance(15)}
-        if r.chance(12):
+        if nf and r.chance(12):
             # a descriptor that lists one (type, name) pair twice - what `desc.extend([...])` with an already present
             # field produced in earlier releases: the frame (and the identifier) carry the duplicate, records one value
             case["dup"] = r.below(nf)
